@@ -97,7 +97,9 @@ GSetDiscardTs(ts) == Free /\ SetDiscardTs(ts) /\ ts > discardTs /\ H([op |-> "se
 \* whole-DB scans by a fresh reader at the latest timestamp, through the plain iterator, the
 \* Stream framework or Backup (+ Load into a scratch DB)
 ScanStore == IterObs(committed, NoOpts, MaxReadTs, now)
-GScan(v) == Free /\ v \in ScanVias /\ LastOp \in {"commit", "commitAt", "tick", "env"} /\ UNCHANGED vars
+GScan(v) == Free /\ v \in ScanVias /\ LastOp \in {"commit", "commitAt", "tick", "env"}
+            /\ (v = "backup" => LastOp \in {"tick", "env"})     \* Backup + Load is the expensive path
+            /\ UNCHANGED vars
             /\ H([op |-> "scan", via |-> v, res |-> ScanStore])
 GDump == Room /\ Dumps /\ (LastRejected \/ LastOp \in {"env", "tick"}) /\ UNCHANGED vars
          /\ H([op |-> "dump", hw |-> hw, o |-> [NoOpts EXCEPT !.all = TRUE],
